@@ -384,21 +384,73 @@ class _RecWalker:
         return self._w.nak()
 
 
+def _install_client_tap():
+    """class-level tap on the stateful dulwich clients (also the ones porcelain creates itself): the
+    pkt-lines they write and read go to _state["clog"] while it is a list"""
+    if _state.get("tap"):
+        return
+    _state["tap"] = True
+    from dulwich import client as C
+    for cls in (C.TCPGitClient, C.SubprocessGitClient):
+        orig = cls._connect
+
+        def _connect(self, cmd, path, protocol_version=None, _orig=orig):
+            proto, can_read, stderr = _orig(self, cmd, path, protocol_version)
+            log = _state.get("clog")
+            if log is not None and not getattr(self, "_c05_tapped", False):
+                rpl, wpl = proto.read_pkt_line, proto.write_pkt_line
+
+                def read_pkt_line():
+                    p = rpl()
+                    log.append(("r", p))
+                    return p
+
+                def write_pkt_line(line):
+                    log.append(("w", line))
+                    return wpl(line)
+                proto.read_pkt_line, proto.write_pkt_line = read_pkt_line, write_pkt_line
+            return proto, can_read, stderr
+        cls._connect = _connect
+
+
+def _client_symptoms(rec, clog, v2):
+    """symptoms of the two shallow-info defects in the client's own pkt-line log"""
+    if not clog:
+        return
+    if rec["depth"]:
+        rec["info"]["shallow_in_have_loop"] = _shallow_in_have_loop(clog)
+    else:
+        after_done = False
+        for d, p in clog:
+            if d == "w" and p and p.startswith(b"done"):
+                after_done = True
+            elif after_done and d == "r" and p is not None:
+                if p.startswith(b"shallow-info"):
+                    rec["info"]["v2_unasked_shallow_info"] = 1
+                break
+
+
 def _instrument_client_proto(client, log):
     """record the pkt-lines the dulwich client writes and reads (client's own view of the dialogue)"""
     orig = client._connect
+    client._c05_tapped = True
 
     def _connect(cmd, path, protocol_version=None):
         proto, can_read, stderr = orig(cmd, path, protocol_version)
         rpl, wpl = proto.read_pkt_line, proto.write_pkt_line
+        tap = _state.get("clog")
 
         def read_pkt_line():
             p = rpl()
             log.append(("r", p))
+            if tap is not None:
+                tap.append(("r", p))
             return p
 
         def write_pkt_line(line):
             log.append(("w", line))
+            if tap is not None:
+                tap.append(("w", line))
             return wpl(line)
         proto.read_pkt_line, proto.write_pkt_line = read_pkt_line, write_pkt_line
         return proto, can_read, stderr
@@ -469,7 +521,13 @@ def _run_job(job):
                 rec["rheads"] = sorted(o[1] for o in u.names(
                     v for n, v in _refs_of(rpath).items() if n.startswith("refs/heads/"))[0] if o[0] == "c")
             t0 = time.time()
-            fn(sj, u, spath, rpath, rec)
+            _install_client_tap()
+            _state["clog"] = []
+            try:
+                fn(sj, u, spath, rpath, rec)
+            finally:
+                clog, _state["clog"] = _state["clog"], None
+            _client_symptoms(rec, clog, bool(sj.get("caps", {}).get("v2")))
             rec["info"]["ms"] = round((time.time() - t0) * 1000, 1)
             # projection of the receiving directory by a fresh reader
             if os.path.isdir(rpath):
@@ -641,8 +699,6 @@ def fetch_tcp(job, u, spath, rpath, rec):
     rec["srv"] = d or []
     cd = _dialogue(u, clog, "cli")
     rec["cli"] = cd or []
-    if job.get("depth"):
-        rec["info"]["shallow_in_have_loop"] = _shallow_in_have_loop(clog)
     _finish_capture(rec, u, tee.buf.getvalue())
     if rec["ok"]:
         _set_want_refs(rpath, job, u)
@@ -777,8 +833,6 @@ def fetch_gitserver(job, u, spath, rpath, rec):
         else:
             os.environ["GIT_PROTOCOL"] = old
     rec["cli"] = [] if caps.get("v2") else (_dialogue(u, clog, "cli") or [])
-    if job.get("depth"):
-        rec["info"]["shallow_in_have_loop"] = _shallow_in_have_loop(clog)
     _finish_capture(rec, u, tee.buf.getvalue())
     if rec["ok"]:
         _set_want_refs(rpath, job, u)
@@ -1230,6 +1284,70 @@ TRANSPORTS = {
     ("push", "gitserver"): push_gitserver,
     ("push", "gitclient"): push_gitclient,
 }
+
+
+# --------------------------------------------------------------------------- TransferShallow paths on the real functions
+def run_shallow_script(spec):
+    """one behaviour of TransferShallow on the real client functions: a canned server stream, a
+    scripted can_read().  spec: v, nb, nh, asked, cshal, acks [bool per have], reads [bool per have].
+    -> {outcome, cshallow [ints], packRead}"""
+    from dulwich.client import _handle_upload_pack_head, _handle_upload_pack_tail
+    from dulwich.errors import GitProtocolError
+    from dulwich.object_store import ObjectStoreGraphWalker
+    from dulwich.protocol import Protocol, pkt_line
+    bsha = lambda i: b"%040x" % (0xB0000 + i)
+    hsha = lambda i: b"%040x" % (0xA0000 + i)
+    dummy = b"d" * 40
+    v2 = spec["v"] == "v2"
+    stream = b""
+    shallow_lines = b"".join(pkt_line(b"shallow " + bsha(i) + b"\n") for i in range(1, spec["nb"] + 1))
+    if not v2:
+        if spec["asked"]:
+            stream += shallow_lines + b"0000"
+        for k in spec["acks"]:
+            if k:
+                stream += pkt_line(b"ACK " + dummy + b" common\n")
+        stream += pkt_line(b"NAK\n") + b"PACK-bytes-of-the-pack"
+    else:
+        if spec["asked"] or spec["cshal"]:
+            stream += pkt_line(b"shallow-info\n") + shallow_lines + b"0001"
+        stream += pkt_line(b"packfile\n") + pkt_line(b"\x01PACK-bytes-of-the-pack") + b"0000"
+    src = io.BytesIO(stream)
+    proto = Protocol(src.read, io.BytesIO().write)
+    recorded = set()
+    walker = ObjectStoreGraphWalker([hsha(i) for i in range(1, spec["nh"] + 1)], lambda sha: [],
+                                    shallow={b"c" * 40} if spec["cshal"] else set(),
+                                    update_shallow=lambda new, un: recorded.update(new or ()))
+    reads = list(spec["reads"])
+    state = {"k": 0}
+
+    def can_read():
+        k = state["k"]
+        state["k"] += 1
+        return bool(reads[k]) if k < len(reads) else False
+    caps = [b"fetch=shallow", b"thin-pack"] if v2 else [b"multi_ack_detailed", b"shallow"]
+    got = []
+    out = {"outcome": "ok", "cshallow": [], "packRead": 0}
+    try:
+        new_shallow, _un = _handle_upload_pack_head(proto, caps, walker, [b"a" * 40], can_read,
+                                                    depth=1 if spec["asked"] else None, protocol_version=2 if v2 else 0)
+        recorded.update(new_shallow or ())
+        _handle_upload_pack_tail(proto, set(caps), walker, lambda d: got.append(d) or len(d), None,
+                                 protocol_version=2 if v2 else 0)
+    except AssertionError as e:
+        out["outcome"] = "sideband_error" if "sideband" in str(e) else "assert"
+    except GitProtocolError:
+        out["outcome"] = "protocol_error"
+    except Exception as e:
+        out["outcome"] = "other:" + type(e).__name__
+    names = {bsha(i): i for i in range(1, spec["nb"] + 1)}
+    out["cshallow"] = sorted(names.get(x, -1) for x in recorded)
+    out["packRead"] = int(any(got))
+    return out
+
+
+def run_shallow_batch(specs):
+    return [run_shallow_script(s) for s in specs]
 
 
 def run_batch(jobs):
